@@ -242,7 +242,7 @@ let run_case (fields : Stdlib.String.t list) : Stdlib.String.t =
     let res = eval_program (Stdlib.Lazy.force big_fuel) (bytes_of_hex prog) files sels (fuzz = "1") in
     let st = res.r_state in
     let iolog =
-      let evs = Stdlib.List.filter (fun e -> e <> IoRaise) (Stdlib.List.rev st.io) in
+      let evs = Stdlib.List.filter (fun e -> match e with IoRaise | IoSignalAt _ -> false | _ -> true) (Stdlib.List.rev st.io) in
       match evs with
       | [] -> "-"
       | _ -> Stdlib.String.concat "," (Stdlib.List.map (function
@@ -250,7 +250,7 @@ let run_case (fields : Stdlib.String.t list) : Stdlib.String.t =
           | IoRead k -> Stdlib.Printf.sprintf "R%d" (int_of_nat k)
           | IoReadEOF -> "RE"
           | IoReadFail -> "RX"
-          | IoRaise -> "") evs) in
+          | IoRaise | IoSignalAt _ -> "") evs) in
     let out = hex_of_bytes (output_of st.io) in
     let errf (e : errinfo) = Stdlib.Printf.sprintf "%d %d %s" (int_of_nat e.eline) (int_of_z e.ecol) (hex_of_bytes e.esrcline) in
     let depth = int_of_nat (frame_depth st) in
